@@ -966,7 +966,7 @@ class StubsStringGenerator:
             for result_docstring in node.result_docstrings:
                 result_desc = result_docstring.description
                 if result_desc:
-                    result_desc = f"\n{indentations} * ".join(result_desc.split("\n"))
+                    result_desc = f"\n{indentations} * ".join(result_desc.replace("*/", "* /").split("\n"))
 
                     result_name = result_docstring.name if result_docstring.name else next(name_generator)
                     result_name = _convert_name_to_convention(result_name, self.naming_convention)
@@ -982,7 +982,7 @@ class StubsStringGenerator:
         if not isinstance(docstring, AttributeDocstring) and docstring.examples:
             for example in docstring.examples:
                 example_text = f"{indentations} * @example\n{indentations} * pipeline example {{\n"
-                for example_part in example.split("\n"):
+                for example_part in example.replace("*/", "* /").split("\n"):
                     if example_part.startswith(">>>"):
                         example_text += f"{indentations} *     {example_part.replace('>>>', '//')}\n"
                     elif example_part.startswith("..."):
@@ -1155,6 +1155,8 @@ class StubsStringGenerator:
     def _create_docstring_description_part(description: str, indentations: str) -> str:
         description = description.rstrip("\n")
         description = description.lstrip("\n")
+        # The text must not close the documentation comment it is written into
+        description = description.replace("*/", "* /")
         splitted_docstring = description.split("\n")
 
         full_docstring = ""
